@@ -1382,6 +1382,9 @@ func (fc *FnCtx) execReturn(x *ssa.Return) {
 		panic(bindError{fmt.Sprintf("%s: contract names %d results, function returns %d", fc.name, len(fc.con.Results), len(x.Results))})
 	}
 	env.inPost = true
+	if c, ok := fc.ghost["closedany"]; ok {
+		fc.oblige("chan:noclose", "", not(c), nil, "the function has closed no channel that other goroutines send on", x.Pos())
+	}
 	for i, en := range fc.con.Ensures {
 		if fc.con.Trusted != "" && en.Label == "" {
 			// trusted contract: the unlabelled postconditions are assumed at call sites, not proved on this body
